@@ -1,4 +1,5 @@
 import Slock.Proofs.AofRecover
+import Slock.Proofs.AofReload
 /-!
 # C07 (journal part) — what a journal means, and the algebra of replaying it
 
@@ -14,6 +15,14 @@ Proved here, for all states and records: what ONE record does to the hold it nam
 `recover_update`, `recover_unlock_full`, `recover_unlock_partial`, `recover_unlock_last`), that it touches no other hold
 (`recover_frame`), that LOCK followed by full UNLOCK of a fresh id is the identity (`recover_lock_unlock_identity`), and that
 replay is compositional (`recover_compositional`).
+
+`reload now : List JRec → RState` (Model/Aof.lean) is the MODEL OF WHAT THE CODE DOES at a restart (LoadAofFile's per-record
+expired filter, `Expried := loadRemaining … now` = the regenerated `GetLockCommandExpriedTime`, then the FROM_AOF branches of
+`LockDB.Lock` / `UnLock` with the regenerated `doLock` / `CheckLockedEqual`); the real restart snapshot is diffed against it on
+every case (`aofreload` lines). Where `reload` and `recover` differ the restart violates the property; the classes below name
+the first record of a key that is treated differently, each with a counterexample evaluated by the kernel
+(`replay_*_violated`). What DOES hold: histories with one live LOCK record per key are restored exactly
+(`reload_one_record_per_key`, all inputs), in particular single-record journals (`reload_single_agrees`).
 
 Not proved (left as the statement of the refinement, to be layered on the stage-2 engine model):
 
@@ -80,5 +89,75 @@ journalling writes one record per level, all carrying the hold's CURRENT command
 the second record means "update", not "one more level": a depth-2 hold is journalled as depth 1. -/
 theorem levels_with_update_flag_example :
     (recover [{ L1 with flag := 2 }, { L1 with flag := 2 }]).get 0 100 1 = some ⟨0, 100, 1, 1, 1, 2, 0, some 35⟩ := by decide
+
+/-! ### The restart (`reload`) against the meaning of the journal (`recover`) -/
+
+theorem reload_uses_generated_conversion (ef e : Nat) (ct now : Int) (he : e < 65536) :
+    loadRemaining ef e ct now = Slock.Gen.K.getLockCommandExpriedTime ef e ct now := reload_uses_generated ef e ct now he
+
+/-- Single-record journals: the restart builds the hold the journal describes (id, depth, Count, Rcount, unit; deadline =
+`engineDeadline` of the remaining lifetime). -/
+theorem reload_single_agrees (now : Int) (r : JRec) (hl : r.isLock = true)
+    (hs : skippedAt r.eflag r.stored r.ct.toNat now = false) (he : loadRemaining r.eflag r.stored r.ct now > 0) :
+    ∃ k h j, reload now [r] = [k] ∧ k.db = r.db ∧ k.key = r.key ∧ k.holds = [h] ∧
+      (recover [r]).get r.db r.key r.id = some j ∧
+      h.id = j.id ∧ h.depth = j.depth ∧ h.count = j.count ∧ h.rcount = j.rcount ∧ h.eflag &&& 0x4440 = j.eflag ∧
+      h.deadline = engineDeadline r.eflag (loadRemaining r.eflag r.stored r.ct now) now :=
+  Slock.Aof.reload_single_agrees now r hl hs he
+
+/-- One live LOCK record per key, any number of keys and databases: exactly one hold per record, nothing dropped or refused. -/
+theorem reload_one_record_per_key (now : Int) (rs : List JRec) (hl : ∀ r ∈ rs, LiveLock now r)
+    (hp : rs.Pairwise (fun a b => ¬ (a.db = b.db ∧ a.key = b.key))) :
+    reload now rs = rs.map (freshEntry now) := by
+  have := Slock.Aof.reload_one_record_per_key now rs [] hl hp (by simp)
+  simpa [reload] using this
+
+def Lk (id : Nat) (ct : Int) (flag aofFlag eflag stored count rcount : Nat) (data : Option Bytes := none) : JRec :=
+  ⟨true, 0, 100, id, flag, aofFlag, eflag, stored, ct, count, rcount, data⟩
+def Uk (id : Nat) (ct : Int) (aofFlag eflag stored rcount : Nat) : JRec :=
+  ⟨false, 0, 100, id, 0, aofFlag, eflag, stored, ct, 0, rcount, none⟩
+
+def holdsOf (st : RState) : List (Nat × Nat × Option Int) := st.flatMap (fun k => k.holds.map (fun h => (h.id, h.depth, h.deadline)))
+
+/-- `C07:replay:level-record-expired` — lock for 10 s at 0, re-lock at 8 (depth 2, deadline 19), restart at 13: the first level's
+record (own deadline 11) is filtered, the restart has depth 1. -/
+theorem replay_level_record_expired_violated :
+    let j := [Lk 1 0 0 0 0x100 11 0 2, Lk 1 8 0 8 0x100 11 0 2]
+    ((recover j).get 0 100 1).map (fun h => (h.depth, h.deadline)) = some (2, some 19) ∧
+    holdsOf (reload 13 j) = [(1, 1, some 20)] ∧
+    classifyReplay 13 j = [((0, 100), ReplayClass.levelRecordExpired)] := by decide
+
+/-- `C07:replay:update-record-expired` — lock for 300 s at 0, update (0x02) to 5 s at 2 (deadline 8), restart at 13: the update
+record is filtered, the first record is not: the hold is back with deadline 302. -/
+theorem replay_update_record_expired_violated :
+    let j := [Lk 1 0 0 0 0x100 301 0 0, Lk 1 2 2 8 0x100 6 0 0]
+    ((recover j).get 0 100 1).map (·.deadline) = some (some 8) ∧
+    holdsOf (reload 13 j) = [(1, 1, some 302)] ∧
+    classifyReplay 13 j = [((0, 100), ReplayClass.updateRecordExpired)] := by decide
+
+/-- `C07:replay:unlock-record-expired` — unlimited lock, update to 1 minute (deadline 61), unlocked at 1, restart at 72: the UNLOCK
+record (60 s left when written) is filtered, the update record (2 minutes stored) is not: the released hold is back. -/
+theorem replay_unlock_record_expired_violated :
+    let j := [Lk 1 0 0 0 0x4100 100 0 0, Lk 1 0 2 8 0x140 2 0 0, Uk 1 1 0 0x140 1 0]
+    (recover j).get 0 100 1 = none ∧
+    holdsOf (reload 72 j) = [(1, 1, some 73)] ∧
+    classifyReplay 72 j = [((0, 100), ReplayClass.unlockRecordExpired)] := by decide
+
+/-- `C07:replay:update-within-tolerance` — 3-minute lock at 0, update to 1 minute at 12 (deadline 73), restart at 69: the first
+record is replayed with 2 minutes (deadline 190), the update (deadline 131) is within CheckLockedEqual's 60 s of that and is
+refused: the hold ends 117 s late. -/
+theorem replay_update_within_tolerance_violated :
+    let j := [Lk 1 0 0 0 0x140 4 0 0, Lk 1 12 2 8 0x140 2 0 0]
+    ((recover j).get 0 100 1).map (·.deadline) = some (some 132) ∧
+    holdsOf (reload 69 j) = [(1, 1, some 190)] ∧
+    classifyReplay 69 j = [((0, 100), ReplayClass.updateWithinTolerance)] := by decide
+
+/-- `C07:replay:value-of-ended-hold-lost` — the key's value was set by a 5-second hold that ended during the outage; another hold
+keeps the key: the journal means "value s", the restart has no value. -/
+theorem replay_value_of_ended_hold_lost_violated :
+    let j := [Lk 1 0 0 0 0x4100 100 1 0, Lk 2 0 0 0x2000 0x100 6 1 0 (some [3, 0, 0, 0, 0, 0, 0x73])]
+    (recover j).values = [((0, 100), [3, 0, 0, 0, 0, 0, 0x73])] ∧
+    (reload 11 j).map (·.value) = [none] ∧
+    classifyReplay 11 j = [((0, 100), ReplayClass.valueOfEndedHoldLost)] := by decide
 
 end Slock.C07J
